@@ -9,6 +9,7 @@ import json, os, re
 from .core import VERIF, EngineError
 from .prog import short
 from . import pathrules as PR
+from . import flow as F
 
 HASH_TY = re.compile(r"std::collections::hash::(map::HashMap|set::HashSet)<")
 ITER_ENTRY = re.compile(
@@ -246,6 +247,31 @@ def run(R):
     R.floor("C18.sources", table["floor_sources"])
 
 
+def _may_fail(P, g, depth=2, _seen=None):
+    """the function can produce an Err / None of its own: it builds one, or passes one on with `?`"""
+    _seen = _seen or set()
+    if g.key in _seen:
+        return False
+    _seen = _seen | {g.key}
+    for i, st in g.stmts():
+        if st["k"] == "assign" and st["rv"]["k"] == "aggr" and st["rv"].get("variant") == "Err" and (st["rv"].get("adt") or "").endswith("result::Result"):
+            return True
+    for c in g.calls:
+        if short(c.name).endswith("::from_residual"):
+            return True
+        if re.search(r"Option::(ok_or|ok_or_else)$|Result::(map_err|and_then)$", short(c.name)):
+            # `.ok_or(InternalError)` after an insert is a defensive conversion of a lookup that cannot miss
+            if len(c.args) > 1 and "InternalError" in json.dumps([o_ for o_ in [c.args[1]]]) + "".join(
+                    json.dumps(st_["rv"]) for i_, st_ in g.stmts() if st_["k"] == "assign" and c.args[1].get("k") in ("copy", "move")
+                    and st_["pl"]["l"] == c.args[1]["pl"]["l"]):
+                continue
+            return True
+    for ch in P.children.get(g.key, []):
+        if _may_fail(P, ch, depth, _seen):
+            return True
+    return False
+
+
 def _loop_body_check(f, entry_call, callees_allowed):
     """the iterator created by entry_call is advanced by a `next` in a loop header; every call in
     that loop body must not be an order-sensitive accumulator, and local callees must be listed"""
@@ -275,7 +301,29 @@ def _loop_body_check(f, entry_call, callees_allowed):
                         continue  # derived Clone/PartialEq/... on a local type: pure
                     if sp not in callees_allowed:
                         bad.append((c.loc(), "unlisted local callee %s" % sp))
-        # early exits that depend on the element are tolerated only as error returns (`?`)
+        # an error exit out of the loop (`?` on a call that can really fail) is order-sensitive: with two failing elements the error that
+        # is reported is the one the hash order visits first.  A `?` on a local callee that constructs no Err and propagates none
+        # (it returns ExecutionResult only to fit a signature) is not an exit.
+        P_ = f.prog
+        for c in f.calls:
+            if c.bb not in body or not short(c.name).endswith("Try>::branch") or not c.args:
+                continue
+            srcs = [o.call for o in F.origins(f, c.args[0], depth=6, through_calls=False) if o.kind == "call"]
+            for sc in srcs:
+                keys_ = P_.callee_keys(f, sc)
+                if not keys_:
+                    continue      # non-local fallible calls are listed / judged by ORDER_SENSITIVE above
+                for k_ in keys_:
+                    gk = P_.fns[k_]
+                    # a callee that takes a closure fails exactly when that closure does: judged at the call site's closure only
+                    clos_params = [i_ for i_ in range(1, gk.arg_count + 1) if re.fullmatch(r"[A-Z]\w{0,3}", gk.local_ty(i_)) or gk.local_ty(i_).startswith("{closure")]
+                    if clos_params:
+                        passed = [P_.fns.get(ck) for ck in (sc.func.get("closure_args") or [])]
+                        if passed and all(pf is not None and not _may_fail(P_, pf) for pf in passed):
+                            continue
+                    if _may_fail(P_, gk):
+                        bad.append((sc.loc(), "error exit: %s can return Err, so which element's error ends the loop depends on the hash order"
+                                    % short(sc.name).split("::")[-1]))
     if not found:
         bad.append((entry_call.loc(), "no loop found"))
     return bad
